@@ -71,10 +71,11 @@ MUTATIONS = [
         "max-age-lost-in-round-trip",
         FIX + [(OS, "            inner_message = message.copy()\n\n            outer_code = request_id.code_style.response\n", "            inner_message = message.copy(max_age=None)\n\n            outer_code = request_id.code_style.response\n")],
     ),
-    ("C11", "short-ciphertext-not-checked", FIX + [(OS, "            len(ciphertext) < self.alg_aead.tag_bytes + 1\n", "            len(ciphertext) < 0\n")]),
 ]
 
 CONTROLS = [
+    # a ciphertext of tag length or less cannot carry a valid tag anyway: the AEAD rejects it (same error family)
+    ("C11", "short-ciphertext-check-removed", FIX + [(OS, "            len(ciphertext) < self.alg_aead.tag_bytes + 1\n", "            len(ciphertext) < 0\n")]),
     ("C11", "proposed-fix-only", FIX + [(OS, 'raise ProtectionInvalid("Tag invalid")\n\n\nclass AES_CCM_16_64_128', 'raise ProtectionInvalid("Tag invalid.")\n\n\nclass AES_CCM_16_64_128')]),
     ("C11", "short-ciphertext-is-a-decode-error", FIX + [(OS, '            raise ProtectionInvalid("Ciphertext too short")\n', '            raise DecodeError("Ciphertext too short")\n')]),
     ("C11", "reserved-bits-plain-protection-error", FIX + [(OS, '            raise DecodeError("Protected data uses reserved fields")\n', '            raise ProtectionInvalid("Protected data uses reserved fields")\n')]),
